@@ -1,12 +1,14 @@
 #!/bin/bash
-# usage: seed_run.sh <seed id> <property> [more properties...]  - applies the seeded change to /repo, runs the quick
-# checks of the given properties, and restores /repo.  (Seeded changes are never committed in /repo.)
+# usage: seed_run.sh <seed id> <property> [more properties...]
+# Runs the quick checks of the given properties against a scratch copy of /repo's sources with the seeded change
+# applied (VF_REPO); /repo itself is not touched.  Evidence files are not rewritten (VF_NO_EVIDENCE).
 id=$1; shift
+W=/var/tmp/seedrepo_$id
+rm -rf $W; mkdir -p $W; cp -r /repo/src /repo/include $W/
+(cd $W && git init -q . && git apply /verif/seeded/$id/patch.diff) || { echo "$id: patch does not apply"; rm -rf $W; exit 2; }
 cd /verif
-git -C /repo diff --quiet || { echo "/repo has local changes"; exit 2; }
-git -C /repo apply /verif/seeded/$id/patch.diff || exit 2
-trap 'git -C /repo checkout -- .' EXIT
 for p in "$@"; do
-  VF_NO_EVIDENCE=1 python3 vf.py check $p --tier ${TIER:-quick} 2>&1 | grep -v "^KNOWN-FINDING" | tail -4 | cut -c1-300
+  VF_REPO=$W VF_NO_EVIDENCE=1 python3 vf.py check $p --tier ${TIER:-quick} 2>&1 | grep -v "^KNOWN-FINDING" | tail -4 | cut -c1-330
   echo "  -> $id on $p exit=${PIPESTATUS[0]}"
 done
+rm -rf $W
